@@ -291,6 +291,13 @@ def request_to_qlink_1_0(
         raise ValueError(f"Cannot convert request {request} to qlink-interface 1.0")
 
 
+def _bell_state_from_qlink_1_0(bell_state):
+    # qlink-interface 1.0 numbers the Bell states differently: convert by name
+    if isinstance(bell_state, qlink_1_0.BellState):
+        return BellState[bell_state.name]
+    return bell_state
+
+
 def response_from_qlink_1_0(response: T_LinkLayer_1_0_Response) -> T_LinkLayerResponse:
     if isinstance(response, qlink_1_0.ResCreateAndKeep):
         return LinkLayerOKTypeK(
@@ -303,7 +310,7 @@ def response_from_qlink_1_0(response: T_LinkLayer_1_0_Response) -> T_LinkLayerRe
             remote_node_id=response.remote_node_id,
             goodness=response.goodness,
             goodness_time=response.time_of_goodness,
-            bell_state=response.bell_state,
+            bell_state=_bell_state_from_qlink_1_0(response.bell_state),
         )
     elif isinstance(response, qlink_1_0.ResMeasureDirectly):
         return LinkLayerOKTypeM(
@@ -316,7 +323,7 @@ def response_from_qlink_1_0(response: T_LinkLayer_1_0_Response) -> T_LinkLayerRe
             purpose_id=response.purpose_id,
             remote_node_id=response.remote_node_id,
             goodness=response.goodness,
-            bell_state=response.bell_state,
+            bell_state=_bell_state_from_qlink_1_0(response.bell_state),
         )
     elif isinstance(response, qlink_1_0.ResError):
         return LinkLayerErr(
